@@ -40,6 +40,7 @@ class Seam:
         self.handler = None
         self.tool = None
         self.foreign = 0
+        self._lines = {}
 
     def install(self):
         for tid in (4, 3, 5, 2):
@@ -67,8 +68,21 @@ class Seam:
         if h is not None:
             h(code, pos)
 
+    def line_of(self, code, pos):
+        """Source line of an event position (LINE: pos is the line; INSTRUCTION: pos is a bytecode offset)."""
+        if self.gran == 'line':
+            return pos
+        tab = self._lines.get(id(code))
+        if tab is None:
+            import dis
+            starts = sorted((off, ln) for off, ln in dis.findlinestarts(code) if ln is not None)
+            tab = self._lines[id(code)] = ([o for o, _ in starts], [l for _, l in starts], code)
+        import bisect
+        i = bisect.bisect_right(tab[0], pos) - 1
+        return tab[1][i] if i >= 0 else code.co_firstlineno
+
     def loc(self, code, pos):
-        return '%s:%d' % (code.co_filename[len(self.prefix):], pos)
+        return '%s:%d' % (code.co_filename[len(self.prefix):], self.line_of(code, pos))
 
 
 # --------------------------------------------------------------------------
@@ -657,7 +671,7 @@ class Sched:
             self.killed = [t, len(self.results[t]), self.seam.loc(code, pos)]
             raise _EXC[k['exc']]('injected by simulator')
         if self.hot is not None:
-            h = (code.co_filename, pos) in self.hot
+            h = (code.co_filename, self.seam.line_of(code, pos)) in self.hot
             self.plan.hot_now = h or self.prev_hot[t]
             self.prev_hot[t] = h
         if self.seen_lines is not None:
@@ -764,7 +778,7 @@ def run_threads_node(a5mod, seam, spec, hot=None):
         outcome, _ = apply_call(a5mod, call['f'], args)
         warm_out.append(outcome)
     plan = make_plan(spec['plan'], rng, len(spec['threads']), spec.get('est_len', 1000))
-    s = Sched(seam, a5mod, spec['threads'], plan, spec['budget'], hot=hot if spec.get('gran', 'line') == 'line' else None)
+    s = Sched(seam, a5mod, spec['threads'], plan, spec['budget'], hot=hot)
     s.kill = spec.get('kill')
     s.run()
     post = post_seq = None
